@@ -59,6 +59,9 @@ def verdict(desc):
     pc.run_model()
     Fc = _forces(pc, ns)
     fscale = max(float(np.max(np.abs(f))) for f in Fc)
+    S_tot = sum(pc.get_val("aero_point_0.s%d.S_ref" % k)[0] for k in range(ns))
+    # a (nearly) non-lifting configuration has forces that are pure round-off of the O(q S) panel terms
+    fscale = max(fscale, 1e-6 * 0.5 * desc["rho"] * desc["v"] ** 2 * S_tot)
     B = np.sqrt(1.0 - M * M)
     T = Tw(np.radians(alpha), np.radians(beta))
     # (1) transformation identity against the incompressible solver
@@ -75,7 +78,7 @@ def verdict(desc):
         pinc = aero_direct(surfaces, dict(fl, Mach=0.0), compressible=False)
         pinc.run_model()
         F0, Fi = _forces(p0, ns), _forces(pinc, ns)
-        s0 = max(float(np.max(np.abs(f))) for f in Fi)
+        s0 = max(max(float(np.max(np.abs(f))) for f in Fi), 1e-6 * 0.5 * desc["rho"] * desc["v"] ** 2 * S_tot)
         for k in range(ns):
             out.close("mach0/sec_forces", F0[k], Fi[k], rtol=1e-9, scale=s0)
         for c in ("CL", "CD", "CM"):
